@@ -537,7 +537,7 @@ Proof.
   specialize (H nw tl eq_refl). destruct (negb (h_height b =? i_height nw)) eqn:E1; [reflexivity|].
   destruct (h_height b <=? h_mhg b) eqn:E2; [reflexivity|].
   assert (i_height nw <? h_mhg b = false) as -> by lia.
-  rewrite (sub32_small (i_height nw) (h_mhg b)) by lia. rewrite sub32_small by lia. reflexivity.
+  rewrite (sub32_small (i_height nw) (h_mhg b)) by lia. reflexivity.
 Qed.
 
 Print Assumptions votes32_agrees.
